@@ -149,8 +149,12 @@ def lineage_specs(draw, allow_zero_propensity=True, max_pts=48, with_death=True,
     vol_dup = draw(st.integers(0, 5)) == 0       # one decision per model: a duplicated volume stays above any volume
     if vol_dup:                                  # threshold, so such models divide by time or by event only
         dchoices = ["time", "time", "time_noise", "event"]
-    for _ in range(ndiv):
-        dk = draw(st.sampled_from(dchoices))
+    forced = []
+    if ndiv == 2 and draw(st.booleans()):
+        # a rule next to an event, each with its own splitter: which mechanism fired decides how the cell is split
+        forced = [draw(st.sampled_from([c for c in dchoices if c not in ("event", "time_noise", "volume_noise")])), "event"]
+    for k_div in range(ndiv):
+        dk = forced[k_div] if forced else draw(st.sampled_from(dchoices))
         modes = {}
         for s in species:
             modes[s] = draw(st.sampled_from(["binomial", "binomial", "perfect", "duplicate"]))
